@@ -10,12 +10,13 @@ import (
 	"go/token"
 	"go/types"
 	"sort"
+	"strconv"
 	"strings"
 )
 
 func init() {
 	register(&propDef{
-		ID: "C05",
+		ID:          "C05",
 		Explanation: "Static decision of the Pratt parser's grouping from its tables: TAB-PREC compares the sign of Lbp differences with go/token precedence for every pair of binary operators (keys of infixMap); TAB-ASSOC checks every binary operator's Led parses its right operand at the operator's own binding power (left, then right operand appended) and the climbing loop uses the strict `rbp < Lbp`; TAB-UNARY checks every unary Nud parses its operand at a power above all binary and below all postfix operators; TAB-MUNCH checks multi-character operator keys are reachable by the tokenizer's maximal munch. Not decided: that evaluating the grouped tree yields Go's value (C04), `&^`.",
 		Assumptions: []string{"go/token.Token.Precedence is the oracle for Go's five binary precedence levels"},
 		Trusted:     []string{"go/token precedence table"},
@@ -24,6 +25,7 @@ func init() {
 			{"TAB-ASSOC", 19, ruleTabAssoc},
 			{"TAB-UNARY", 3, ruleTabUnary},
 			{"TAB-MUNCH", 33, ruleTabMunch},
+			{"TAB-SYMBOLS", 1, ruleTabSymbols},
 			{"TAB-MASK", 3, ruleTabMask},
 		},
 	})
@@ -691,5 +693,126 @@ func ruleTabMask(c *Ctx, r *R) {
 	}
 	if n < 3 {
 		r.undecided("mask", "-", fmt.Sprintf("only %d Expression calls found in Led handlers", n))
+	}
+}
+
+// TAB-SYMBOLS: a comparison of a node's Symbol with a string that no node can carry is dead
+// code, and the branch it guards never runs. The vocabulary is what the tokenizer and the
+// parser can put into a Symbol: the keys of the `symbols` table, every constant handed to
+// symAtPos / rename / Replace, every constant stored into a Symbol field. (This is how
+// `expr.Symbol == "(float64)"` in negateNud — float literals are "(float)" — left -0.0 to be
+// negated at run time.)
+func ruleTabSymbols(c *Ctx, r *R) {
+	rows, err := c.symbolTable()
+	if err != nil {
+		r.undecided("symbols", "-", err.Error())
+		return
+	}
+	vocab := map[string]bool{}
+	for k := range rows {
+		vocab[k] = true
+	}
+	add := func(e ast.Expr) {
+		if v, ok := c.ConstString(e); ok {
+			vocab[v] = true
+		}
+	}
+	for _, f := range c.Pkg.Syntax {
+		ast.Inspect(f, func(n ast.Node) bool {
+			switch x := n.(type) {
+			case *ast.CallExpr:
+				switch c.CalleeName(x) {
+				case "symAtPos":
+					if len(x.Args) == 2 {
+						add(x.Args[1])
+					}
+				case "token.rename":
+					if len(x.Args) == 1 {
+						add(x.Args[0])
+					}
+				case "token.Replace":
+					if len(x.Args) == 3 {
+						add(x.Args[1])
+					}
+				case "parser.Block":
+					if len(x.Args) >= 1 {
+						add(x.Args[0])
+					}
+				}
+			case *ast.KeyValueExpr:
+				if id, ok := x.Key.(*ast.Ident); ok && id.Name == "Symbol" {
+					add(x.Value)
+				}
+			case *ast.AssignStmt:
+				for i, l := range x.Lhs {
+					if sel, ok := unparen(l).(*ast.SelectorExpr); ok && sel.Sel.Name == "Symbol" && i < len(x.Rhs) {
+						add(x.Rhs[i])
+						// t.Symbol, t.Text = v, v
+						if len(x.Lhs) == len(x.Rhs) {
+							add(x.Rhs[i])
+						}
+					}
+				}
+			}
+			return true
+		})
+	}
+	// the tokenizer's literal classes
+	if tk := c.Func("tokenize"); tk != nil {
+		ast.Inspect(tk.Body, func(n ast.Node) bool {
+			if bl, ok := n.(*ast.BasicLit); ok && bl.Kind == token.STRING {
+				if v, ok := c.ConstString(bl); ok && strings.HasPrefix(v, "(") && strings.HasSuffix(v, ")") {
+					vocab[v] = true
+				}
+			}
+			return true
+		})
+	}
+	n := 0
+	isSym := func(e ast.Expr) bool {
+		sel, ok := unparen(e).(*ast.SelectorExpr)
+		return ok && sel.Sel.Name == "Symbol" && c.isTokenPtr(c.TypeOf(sel.X))
+	}
+	for _, name := range c.FuncNames() {
+		fd := c.Func(name)
+		if fd.Body == nil {
+			continue
+		}
+		check := func(lit ast.Expr, at ast.Node) {
+			v, ok := c.ConstString(lit)
+			if !ok {
+				return
+			}
+			n++
+			if !vocab[v] {
+				r.fail("dead comparison "+name+" "+strconv.Quote(v), c.Pos(at), name+" compares a node's Symbol with "+strconv.Quote(v)+", which no node carries (it is neither a key of the symbol table nor produced by the tokenizer or a rename): the branch never runs — e.g. negateNud's test for \"(float64)\" (float literals are \"(float)\") left `-0.0` to be negated at run time, so the constant printed -0")
+			}
+		}
+		ast.Inspect(fd.Body, func(m ast.Node) bool {
+			switch x := m.(type) {
+			case *ast.BinaryExpr:
+				if x.Op == token.EQL || x.Op == token.NEQ {
+					if isSym(x.X) {
+						check(x.Y, x)
+					} else if isSym(x.Y) {
+						check(x.X, x)
+					}
+				}
+			case *ast.SwitchStmt:
+				if x.Tag != nil && isSym(x.Tag) {
+					for _, cc := range x.Body.List {
+						for _, e := range cc.(*ast.CaseClause).List {
+							check(e, cc)
+						}
+					}
+				}
+			}
+			return true
+		})
+	}
+	if n == 0 {
+		r.undecided("symbols", "-", "no comparison of a Symbol with a constant found")
+	} else {
+		r.ok("symbol comparisons", fmt.Sprintf("%d comparisons, every constant is in the vocabulary of %d symbols", n, len(vocab)))
 	}
 }
